@@ -986,3 +986,12 @@ B('IS-typeblocks-identity-or', ['C10'], 'type_blocks.py', 'TypeBlocks.equals',
   'if skipna and id(other) == id(self):', 'if skipna or id(other) == id(self):', 'I.equals-identity-shortcut-skipna', 'equals')
 N('IS-frame-identity-nested', ['C10'], 'frame.py', 'Frame.equals',
   '        if skipna and id(other) == id(self):\n            return True\n', '        if skipna:\n            if id(other) == id(self):\n                return True\n')
+
+B('DA-concat-resolved-not-carried', ['C07', 'C11'], 'util.py', 'concat_resolved',
+  'dt_resolve = resolve_dtype(array.dtype, dt_resolve)', 'dt_resolve = resolve_dtype(array.dtype, first.dtype)', 'F1.loop-dtype-carried', 'concat_resolved')
+B('DA-extract-bloc-last-wins', ['C07'], 'type_blocks.py', 'TypeBlocks.extract_bloc',
+  '                dt_resolve = resolve_dtype(dt_resolve, part.dtype)', '                dt_resolve = part.dtype', 'F1.loop-dtype-carried', 'extract_bloc')
+B('DA-resolve-iter-not-carried', ['C07', 'C11'], 'util.py', 'resolve_dtype_iter',
+  'dt_resolve = resolve_dtype(dt_resolve, dt)', 'dt_resolve = resolve_dtype(dt, dt)', 'F1.loop-dtype-carried', 'resolve_dtype_iter')
+N('DA-concat-resolved-swapped-args', ['C07', 'C11'], 'util.py', 'concat_resolved',
+  'dt_resolve = resolve_dtype(array.dtype, dt_resolve)', 'dt_resolve = resolve_dtype(dt_resolve, array.dtype)')
